@@ -383,6 +383,12 @@ func (hp *HTTPProxy) pacProxy(r *http.Request) (*url.URL, error) {
 		return nil, err
 	}
 
+	// SOCKS (v4) proxies are not supported. Fail the request here, http.Transport would
+	// otherwise talk to a proxy with an unknown scheme as if it was an HTTP proxy.
+	if p.Mode == pac.SOCKS || p.Mode == pac.SOCKS4 {
+		return nil, fmt.Errorf("unsupported proxy type %s", p.Mode)
+	}
+
 	proxyURL := p.URL()
 
 	// do not attach proxy credentials if we are using Kerberos
